@@ -128,6 +128,29 @@ def restated_statements(mods: dict[str, Module], inv: dict) -> dict[str, int]:
     return out
 
 
+def new_callees(mods: dict[str, Module], inv: dict) -> dict[str, list[str]]:
+    """`module:qualname` -> names the function (after canonicalisation) calls that its reference version did not mention at all."""
+    out: dict[str, list[str]] = {}
+    for mod in mods.values():
+        old = inv["modules"].get(mod.name)
+        if old is None:
+            continue
+        for q, _, fn in _functions_of(mod):
+            ref = old["tokens"].get(q)
+            if ref is None:
+                continue
+            ref = set(ref)
+            names = set()
+            for c in ast.walk(fn):
+                if isinstance(c, ast.Call):
+                    nm = c.func.attr if isinstance(c.func, ast.Attribute) else c.func.id if isinstance(c.func, ast.Name) else None
+                    if nm and nm not in ref and "." + nm not in ref and nm not in ("cast", "tuple", "list", "len", "range", "enumerate", "zip", "isinstance", "int", "float", "str", "bool"):
+                        names.add(nm)
+            if names:
+                out[f"{mod.name}:{q}"] = sorted(names)
+    return out
+
+
 def _tokens(fn: ast.AST) -> list[str]:
     """Identifier / literal vocabulary of a function body: what it talks about, regardless of its own name and layout."""
     out = set()
@@ -3766,7 +3789,7 @@ def canonicalise(mods: dict[str, Module]) -> dict:
                     if isinstance(x, FuncNode) and (oc is None or x.name not in oc["methods"]):
                         new_functions.append(f"{mod.name}:{node.name}.{x.name}")
     return {"renamed_back": {k: v for k, v in sorted(ren.items())}, "locals": loc_log[:40], "inlined": inl.log[:40], "substituted": fwd_log[:60],
-            "reraising_try": list(RERAISING_TRY), "restated": restated,
+            "reraising_try": list(RERAISING_TRY), "restated": restated, "new_callees": new_callees(mods, inv),
             "new_helpers": sorted(set(new_functions) | {f"{k[0]}:{(k[1] + '.') if k[1] else ''}{k[2]}" for k in inl.helpers})}
 
 
